@@ -5,6 +5,7 @@ import OmplModel.Proofs.ControlKPIECE
 import OmplModel.Proofs.ControlPDST
 import OmplModel.Model.ControlExtra
 import OmplModel.Proofs.ControlSamplerReal
+import OmplModel.Proofs.ControlReconf
 /-!
 # C02 — control propagation: every reported control path replays
 
@@ -1532,5 +1533,116 @@ example : ¬ (pdW1.status = .exact →
 /-- and `pdst_resume_sound` applies to the current code's run on the same toy (no goal assumption) -/
 example := @pdst_resume_sound Nat Nat Int Nat numFix pdW pdN_hrng [0] pdW0.final
   (@CPDST.Reach.first Nat Nat Int Nat numFix pdW 0 [0] pdScript) false [] [{ sample := 12, ctl := [(1, 2)] }]
+
+/-! ## control samplers under reconfiguration, re-entrancy of propagateWhileValid  (`Model/ControlReconf.lean`)
+
+A sampler object (a planner's `controlSampler_`, the inner `cs_` of a `SimpleDirectedControlSampler`) outlives
+`setBounds` / `setMinMaxControlDuration` / `setPropagationStepSize` calls on the objects it samples from.  The property
+clause "every control lies within the control-space bounds" is about the bounds the space has when the planner runs and
+reports, so it needs: **a draw depends on the configuration at draw time** — for every history. -/
+
+section reconf
+open OmplModel.ControlReconf
+
+/-- **every draw of every history lies within the CURRENT configuration** (arithmetic-free).  `P.drawCtl` /
+`P.drawSteps` are arbitrary functions meeting the contracts `DrawOK` (a draw lies within the bounds it is handed; a step
+count within the range it is handed); the history is any list of setters (with arguments the library accepts),
+re-allocations, `sample`, `sampleStepCount` and `sampleTo` calls on ONE sampler object.  The output of operation `i`
+meets `OutOK` for `confAfter st.conf (ops.take i)` — the configuration produced by the setters before it, computed
+independently of the machine: a sampled control is within the current bounds; a step count within the requested range;
+`sampleTo` returns a control within the current bounds, at most the current `maxControlDuration` steps, the exact
+all-valid propagation of the source under the current step size. -/
+theorem reconf_draws_in_current_bounds {α ρ S δ : Type} (le : α → α → Prop) (P : Params α ρ S δ) (hd : DrawOK le P)
+    (st : St α ρ) (ops : List (Op α ρ S)) (hc : ConfOK le st.conf) (ho : ∀ op ∈ ops, OpOK le op)
+    (i : Nat) (op : Op α ρ S) (hi : ops[i]? = some op) :
+    ∃ out, (run P false st ops)[i]? = some out ∧ OutOK le P (confAfter st.conf (ops.take i)) op out :=
+  run_ok le P hd st ops hc ho i op hi
+
+/-- toy instance for the examples: the generator is a counter, a draw returns the upper bound plus nothing random -/
+def reconfP : Params Nat Nat Nat Nat :=
+  { drawCtl := fun b g => (match b with | .real _ hi => .real hi | .disc _ hi => .disc hi, g + 1),
+    drawSteps := fun _ b g => (b, g + 1),
+    step := fun dt s u => match u with | .disc v => s + dt * v.toNat | .real _ => s,
+    valid := fun s => decide (s < 100), dist := distN, lt := ltN, k := 2 }
+
+def reconfSt : St Nat Nat := { conf := { cb := .disc 0 7, minSteps := 1, maxSteps := 3, dt := 1 }, gen := 0, cache := .disc 0 7 }
+
+def showOut : Out Nat Nat → Option (Int × Nat × Nat)
+  | .ctl (.disc v) => some (v, 0, 0)
+  | .steps k => some (0, k, 0)
+  | .to (some (.disc v, n, s)) => some (v, n, s)
+  | _ => none
+
+/-- non-vacuity: narrow the discrete range, shorten the durations, double the step size between draws of one sampler -/
+example : (run reconfP false reconfSt
+    [.sample, .setBounds (.disc 0 3), .sample, .sampleTo 0 50, .setMinMax 1 2, .setStep 2, .sampleTo 0 50]).map showOut =
+    [some (7, 0, 0), none, some (3, 0, 0), some (3, 3, 9), none, none, some (3, 2, 12)] := by decide
+
+/-- **the sampler that copies the bounds when it is allocated violates the clause** (`cached = true`; the as-coded machine
+on the same history does not): allocated for the range `[0, 7]`, the space is narrowed to `[0, 3]`, the next draw is `7`. -/
+theorem reconf_cached_sampler_fails :
+    (run reconfP true reconfSt [.setBounds (.disc 0 3), .sample])[1]? = some (.ctl (.disc 7)) ∧
+    ¬ InB (· ≤ ·) (confAfter reconfSt.conf (([.setBounds (.disc 0 3), .sample] : List (Op Nat Nat Nat)).take 1)).cb
+        (.disc 7 : Ctl Nat) ∧
+    (run reconfP false reconfSt [.setBounds (.disc 0 3), .sample])[1]? = some (.ctl (.disc 3)) ∧
+    InB (· ≤ ·) (CBounds.disc 0 3 : CBounds Nat) (.disc 3 : Ctl Nat) := by
+  refine ⟨by decide, ?_, by decide, ?_⟩
+  · show ¬ ((0 : Int) ≤ 7 ∧ (7 : Int) ≤ 3)
+    omega
+  · show (0 : Int) ≤ 3 ∧ (3 : Int) ≤ 3
+    omega
+
+open OmplModel.ControlReal in
+/-- **the library's two samplers meet the contracts at exact real arithmetic** [EX]: with raw generator outputs in
+`[0, 1)`, `RealVectorControlUniformSampler::sample` / `DiscreteControlSampler::sample` (`sampleCtl`) and
+`sampleStepCount` (`sampleSteps`) satisfy `DrawOK`; hence, by `reconf_draws_in_current_bounds`, every draw of every
+reconfiguration history of a sampler, and every control a `SimpleDirectedControlSampler` returns, lies within the bounds
+the control space has at that moment.  (IEEE rounding of `(hi - lo) * r + lo` is executed by the lock-step, not verified.) -/
+theorem reconf_sampler_inbounds {ρ S δ : Type} (raw : ρ → ℝ × ρ) (hraw : ∀ g, 0 ≤ (raw g).1 ∧ (raw g).1 < 1)
+    (step : ℝ → S → Ctl ℝ → S) (valid : S → Bool) (dist : S → S → δ) (lt : δ → δ → Bool) (k : Nat)
+    (st : St ℝ ρ) (ops : List (Op ℝ ρ S)) (hc : ConfOK (· ≤ ·) st.conf) (ho : ∀ op ∈ ops, OpOK (· ≤ ·) op)
+    (i : Nat) (op : Op ℝ ρ S) (hi : ops[i]? = some op) :
+    let P : Params ℝ ρ S δ :=
+      { drawCtl := @sampleCtl ℝ ρ numReal raw, drawSteps := @sampleSteps ℝ ρ numReal raw, step, valid, dist, lt, k }
+    ∃ out, (run P false st ops)[i]? = some out ∧ OutOK (· ≤ ·) P (confAfter st.conf (ops.take i)) op out := by
+  intro P
+  exact run_ok (· ≤ ·) P ⟨fun b g hb => sampleCtl_inB raw hraw b g hb, fun a b g h => sampleSteps_range raw hraw a b g h⟩
+    st ops hc ho i op hi
+
+example : ∃ r : ℝ, 0 ≤ r ∧ r < 1 := ⟨0, le_refl _, by norm_num⟩
+
+/-- **propagateWhileValid is re-entrant**: whatever the validity callback does in its own world `σ` between the steps —
+e.g. run complete further propagations on the same `SpaceInformation` — the call returns what it returns alone, as
+long as the callback's verdicts are those of `valid`. -/
+theorem pwv_reentrant {σ : Type} (step : S → U → S) (valid : S → Bool) (cb : σ → S → Bool × σ)
+    (hcb : ∀ w s, (cb w s).1 = valid s) (s : S) (u : U) (n : Nat) (w : σ) :
+    (pwvM step cb s u n w).1 = pwv step valid s u n :=
+  pwvM_pure step valid cb hcb s u n w
+
+/-- **a nested complete call inside validity query `k`: both results are those of each call alone**, the callback was
+queried exactly `min (r + 1) steps` times (`r` = the outer result), and the nested call ran iff the outer call made a
+`k`-th query. -/
+theorem pwv_nested_both_alone (step : S → U → S) (valid : S → Bool) (k : Nat) (s2 : S) (u2 : U) (n2 : Nat)
+    (s : S) (u : U) (n : Nat) :
+    pwvM step (nestCb step valid k s2 u2 n2) s u n (0, none) =
+      (pwv step valid s u n,
+       (min ((pwv step valid s u n).1 + 1) n,
+        if k < min ((pwv step valid s u n).1 + 1) n then some (pwv step valid s2 u2 n2) else none)) :=
+  pwvM_nestX step valid k (pwv step valid s2 u2 n2) s u n
+
+example : pwvM stepN (nestCb stepN validN 1 0 3 5) 0 2 4 (0, none) = ((4, 8), (4, some (3, 9))) := by decide
+example : pwvM stepN (nestCb stepN validN 3 0 3 5) 0 4 4 (0, none) = ((2, 8), (3, none)) := by decide
+
+/-- **the variant with ONE scratch state kept in the shared object is not re-entrant**: the callback (a nested
+propagation on the same object) overwrites the scratch that holds the outer call's last valid state; the outer call
+then continues from, and returns, a state its control never led to.  World = the scratch; the callback always answers
+`true` and leaves `100` in the scratch. -/
+theorem pwvShared_fails :
+    pwvShared stepN (fun (_ : Nat) (_ : Nat) => (true, 100)) (fun w => w) (fun _ x => x) 0 1 3 0 = ((3, 101), 100) ∧
+    pwv stepN (fun _ => true) 0 1 3 = (3, 3) ∧
+    (pwvM stepN (fun (_ : Nat) (_ : Nat) => (true, 100)) 0 1 3 0).1 = (3, 3) := by
+  refine ⟨by decide, by decide, by decide⟩
+
+end reconf
 
 end OmplModel.Props.C02
